@@ -61,6 +61,8 @@ def expand(item, seed):
                 if "ping_timeout" in sq:
                     sc["ping"] = {"interval": 2 * S, "timeout": S}
                 yield sc
+                if "ping_timeout" in sq and onrec:
+                    yield dict(sc, reconnect=5 * S, outcomes=[dict(_out(x), then_eof=True) if x == "ping_timeout" else _out(x) for x in sq] + [_out("server_close", 2)])
                 if onrec and len(sq) <= 1:
                     yield dict(sc, outcomes=[_out(x) for x in sq] + [dict(_out("server_close", 2), then_reset=True)])
     elif k == "closer_sweep":
@@ -82,6 +84,8 @@ def gen(rng):
     for o in outs:
         if o["kind"] in ("eof", "reset") and rng.random() < 0.4:
             o["cut"] = rng.choice(("mid_frame", "after_first_fragment", "mid_header"))
+        if o["kind"] == "ping_timeout" and rng.random() < 0.4:
+            o["then_eof"] = True
     outs.append(_out("server_close", rng.randrange(0, 4), rng.choice((S, 4 * S))))
     if rng.random() < 0.2:
         outs[-1]["then_reset"] = True
@@ -89,6 +93,8 @@ def gen(rng):
           "on_reconnect": rng.random() < 0.6, "dispatcher": disp, "closer": None, "seed": rng.randrange(1 << 30)}
     if any(o["kind"] == "ping_timeout" for o in outs) or rng.random() < 0.2:
         sc["ping"] = rng.choice(({"interval": 2 * S, "timeout": S}, {"interval": 5 * S, "timeout": 2 * S}))
+        if any(o.get("then_eof") for o in outs):
+            sc["reconnect"] = rng.choice((5 * S, 30 * S))
     r = rng.random()
     if r < 0.25:
         total = sum(o["at"] + sc["reconnect"] for o in outs)
@@ -163,6 +169,12 @@ def run(sc, choices=None):
                 script.append({"t": at, "end": kind})
             elif kind == "ping_timeout":
                 spec["on_ping"] = {"mode": "never"}
+                if o.get("then_eof"):
+                    # the hung peer's connection is torn down (end of stream) while the client, having given it up, is
+                    # waiting out the reconnect interval: one loss, reported a second time
+                    if rr <= 2 * int(ping["timeout"]):
+                        raise InvalidScenario("then_eof needs a reconnect interval above two ping timeouts")
+                    script.append({"t": 2 * int(ping["interval"]) + 2 * int(ping["timeout"]) + rr // 2, "end": "eof"})
             else:
                 it_ = {"t": at, "hex": R.encode_frame(1, 8, b"\x03\xe8bye").hex()}
                 if o.get("then_reset"):
@@ -341,7 +353,7 @@ def run(sc, choices=None):
 
 
 def _fin(res, sc, outs, closer_phase):
-    res.sig = repr((tuple((o["kind"], o.get("cut"), bool(o.get("then_reset"))) for o in outs), sc["reconnect"], sc.get("dispatcher"), bool(sc.get("on_reconnect")),
+    res.sig = repr((tuple((o["kind"], o.get("cut"), bool(o.get("then_reset")), bool(o.get("then_eof"))) for o in outs), sc["reconnect"], sc.get("dispatcher"), bool(sc.get("on_reconnect")),
                     (sc.get("closer") or {}).get("kind"), closer_phase, res.sched if res.switches else ""))
     res.nontrivial = len(outs) > 1
     for o in outs:
